@@ -7,14 +7,16 @@
 // fixed victim realm of src.go.
 //
 // impl column :  <res> chg=<0|1> meta=<0|1> new=<0|1> rv=<0|1>
-//     res   ok | panic:static | panic:readonly | panic:alloc | panic:persist |
-//           panic:conv | panic:immutable | panic:other | err:badop
-//     chg   the DECODED logical content (values + child object ids, ownership
-//           bookkeeping stripped) of some pre-existing victim object changed
-//     meta  no logical change, but raw bytes of a pre-existing victim object did
-//           (ref-count / escape bookkeeping)
-//     new   objects appeared under the victim's PkgID prefix
-//     rv    a realm value (.uverse..grealm) reached the store
+//
+//	res   ok | panic:static | panic:readonly | panic:alloc | panic:persist |
+//	      panic:conv | panic:immutable | panic:other | err:badop
+//	chg   the DECODED logical content (values + child object ids, ownership
+//	      bookkeeping stripped) of some pre-existing victim object changed
+//	meta  no logical change, but raw bytes of a pre-existing victim object did
+//	      (ref-count / escape bookkeeping)
+//	new   objects appeared under the victim's PkgID prefix
+//	rv    a realm value (.uverse..grealm) reached the store
+//
 // oracle column: the property statement evaluated on the raw `oid:` keys of the
 // victim realm before/after the tx and on the generator's label of the
 // program (who performs the mutation: attacker-chosen code or victim code) —
